@@ -1,21 +1,41 @@
 (* Properties/C09.v -- Gather always returns a valid, consistent, complete-or-reported result.
    Only theorem statements; proofs are in Proofs/C09_proofs.v.  Model and specification: Model/Gather.v.
-   [arr] is the list of metrics in the order in which the collect loop of Gather hands them to processMetric:
-   the concurrent collection workers only decide this order, and the theorems hold for EVERY list. *)
+
+   [arr] is the list of metrics in the order in which the collect loop of Registry.Gather hands them to
+   processMetric: the concurrent collection workers only decide this order, and the theorems quantify over
+   EVERY list (any multiset of emitted metrics, any arrival order, any size).
+   [names_ok arr]: a Desc without error carries a non-empty name (guaranteed by NewDesc; see checks/C09.json).
+   [lg] selects model.LegacyValidation / UTF8Validation, [ped] the pedantic registry, [ids] its descIDs. *)
 From Coq Require Import ZArith List Bool Permutation.
 From Verif Require Import Base.Str Model.Gather Proofs.C09_proofs.
 Import ListNotations.
 Open Scope Z_scope.
 
-(* whatever is emitted, in whatever order: sorted unique names, type match, labels sorted/unique/valid/non-reserved/UTF-8,
-   no own quantile/le, unique (name, labels, timestamp), no suffix collisions; and no empty family *)
+(* whatever is emitted, in whatever order: families sorted by unique name, every metric matches its family's type,
+   has sorted, unique, valid, non-reserved label names and UTF-8 values, no own quantile/le label, is unique by
+   (name, label set, timestamp) across the result, no family collides with a derived series name; no empty family *)
 Theorem gather_valid : forall (lg ped : bool) (ids : list Z) (arr : list emitted),
   names_ok arr ->
   valid_result lg (fst (gather lg ped ids arr)) = true /\ no_empty_family (fst (gather lg ped ids arr)) = true.
 Proof. exact C09_proofs.gather_valid_lemma. Qed.
 
-(* the emitted metrics split into accepted and rejected ones: the result holds exactly the accepted ones
-   (each once, labels sorted), and there is one error per rejected one *)
+(* the boolean checkers valid_result / metric_ok (also applied to the implementation's output by the harness) in words *)
+Theorem valid_result_meaning : forall lg fs, valid_result lg fs = true ->
+  strictly_sorted (map f_name fs) = true /\ NoDup (map f_name fs) /\
+  (forall f m, In f fs -> In m (f_metrics f) -> metric_ok lg (f_type f) m = true) /\
+  NoDup (map series_of (all_metrics fs)) /\
+  (forall f g, In f fs -> In g fs -> collides (f_name f) (f_type f) (f_name g) = false).
+Proof. exact C09_proofs.valid_result_meaning_lemma. Qed.
+
+Theorem metric_ok_meaning : forall lg ty m, metric_ok lg ty m = true ->
+  type_matches ty m = true /\ strictly_sorted (map fst (d_labels m)) = true /\ NoDup (map fst (d_labels m)) /\
+  (forall n v, In (n, v) (d_labels m) -> label_name_ok lg n = true /\ utf8_valid v = true) /\
+  (ty = ty_summary -> ~ In quantile_label (map fst (d_labels m))) /\
+  (ty = ty_histogram -> ~ In bucket_label (map fst (d_labels m))).
+Proof. exact C09_proofs.metric_ok_meaning_lemma. Qed.
+
+(* complete or reported: the emitted metrics split into accepted and rejected ones; the result holds exactly the
+   accepted ones (each once, labels sorted), and the error list has one entry per rejected one *)
 Theorem gather_complete_or_reported : forall (lg ped : bool) (ids : list Z) (arr : list emitted),
   names_ok arr ->
   exists acc rej, Permutation arr (acc ++ rej) /\
@@ -28,3 +48,62 @@ Theorem gather_nil_error_all_present : forall (lg ped : bool) (ids : list Z) (ar
   names_ok arr -> snd (gather lg ped ids arr) = [] ->
   Permutation (all_metrics (fst (gather lg ped ids arr))) (map emitted_as arr).
 Proof. exact C09_proofs.gather_all_present_lemma. Qed.
+
+(* order independence: two arrival orders of the same metrics that both report no error return the same families
+   (names, help, type, in the same order) with the same metrics per family, up to the order of the metrics inside
+   a family (see metric_order_depends_on_arrival_refuted for why not more) *)
+Theorem gather_order_independent : forall (lg ped : bool) (ids : list Z) (arr1 arr2 : list emitted),
+  names_ok arr1 -> Permutation arr1 arr2 ->
+  snd (gather lg ped ids arr1) = [] -> snd (gather lg ped ids arr2) = [] ->
+  same_result (fst (gather lg ped ids arr1)) (fst (gather lg ped ids arr2)).
+Proof. exact C09_proofs.gather_order_independent_lemma. Qed.
+
+(* REFUTED, strong reading of "whenever no error is reported the result is independent of the order": whether an error
+   is reported at all can depend on the order (a dto.Metric with two payloads set); confirmed on the real code *)
+Theorem nil_error_depends_on_order_refuted :
+  exists lg ped ids arr1 arr2, names_ok arr1 /\ Permutation arr1 arr2 /\
+    snd (gather lg ped ids arr1) = [] /\ snd (gather lg ped ids arr2) <> [].
+Proof. exact C09_proofs.nil_error_depends_on_order_refuted_lemma. Qed.
+
+(* REFUTED, equality of the returned slices: MetricSorter.Less compares label values only, metrics of one family with
+   different label names and equal values come out in arrival order; confirmed on the real code *)
+Theorem metric_order_depends_on_arrival_refuted :
+  exists lg ped ids arr1 arr2, names_ok arr1 /\ Permutation arr1 arr2 /\
+    snd (gather lg ped ids arr1) = [] /\ snd (gather lg ped ids arr2) = [] /\
+    fst (gather lg ped ids arr1) <> fst (gather lg ped ids arr2).
+Proof. exact C09_proofs.metric_order_depends_on_arrival_refuted_lemma. Qed.
+
+(* Gatherers: merging any answers whose families are named and typed 0..4 (e.g. Registry.Gather results) is valid *)
+Theorem gatherers_valid : forall (lg : bool) (gs : list (list family * list Z)),
+  gs_wf gs ->
+  valid_result lg (fst (gatherers_gather lg gs)) = true /\ no_empty_family (fst (gatherers_gather lg gs)) = true.
+Proof. exact C09_proofs.gatherers_valid_lemma. Qed.
+
+(* Gatherers: first occurrence wins -- every family (with its help and type) and metric merged from the first
+   gatherers gs1 is in the final result whatever the later gatherers gs2 answer *)
+Theorem gatherers_first_wins : forall (lg : bool) (gs1 gs2 : list (list family * list Z)) (g : family) (m : dmetric),
+  In g (fst (fst (merge_gatherers lg gs1 ([], [])))) -> In m (f_metrics g) ->
+  exists f, In f (fst (gatherers_gather lg (gs1 ++ gs2))) /\ hdr3 f = hdr3 g /\ In m (f_metrics f).
+Proof. exact C09_proofs.gatherers_first_wins_lemma. Qed.
+
+(* the hypotheses are satisfiable and the model computes: {a="1"}, {b="1"}, {a="1"} again -> the duplicate is reported *)
+Example gather_example :
+  names_ok (map ex_e [ex_a; ex_b; ex_a]) /\
+  gather false false [] (map ex_e [ex_a; ex_b; ex_a]) = ([mkF [109] [104] ty_gauge [ex_a; ex_b]], [e_dup_metric]).
+Proof. exact C09_proofs.gather_example_lemma. Qed.
+
+(* NOT PROVED (exercised by the harness stream "builtin" and the no-defect cases of stream "adv"):
+   gather_wellbehaved_all_present :
+     forall lg ped ids arr, names_ok arr ->
+       (forall e, In e arr -> ds_err (e_desc e) = false /\ e_write_err e = false /\
+                  check_labels lg (d_summary (e_dto e)) (d_hist (e_dto e)) [] (d_labels (e_dto e)) = None /\
+                  first_type (e_dto e) <> None /\
+                  (ped && e_checked e = true -> z_in (ds_id (e_desc e)) ids = true /\
+                     check_desc_consistency (ds_help (e_desc e)) (snd (emitted_as e)) (e_desc e) = None)) ->
+       (forall e e', In e arr -> In e' arr -> e_name e = e_name e' ->
+                  e_help e = e_help e' /\ first_type (e_dto e) = first_type (e_dto e')) ->
+       NoDup (map key_of (map emitted_as arr)) ->
+       (forall e e' t, In e arr -> In e' arr -> first_type (e_dto e) = Some t -> collides (e_name e) t (e_name e') = false) ->
+       snd (gather lg ped ids arr) = [].
+   What is proved instead: gather_nil_error_all_present (nil error => everything present) and
+   gather_complete_or_reported.  Missing: the converse direction of each check (no defect => the check passes). *)
